@@ -3,12 +3,22 @@
   Property theorems only (helper lemmas in Lemmas/Config.lean).
   Per request the device acknowledges, rejects with a non-zero code, applies but loses the ACK, or
   loses the request (`Config.Outcome`); the device advertises ACK support.
+  A rejection carries a non-zero code: `.nack 0` is not a rejection on the wire (an ACK frame with code 0 IS the
+  positive acknowledgement).  The configuration machine (`Config.ackSeen`) treats every `.nack r` as a failed
+  request, so its theorems below are about rejections proper (r ≠ 0; the drivers do not accept `n0`); the start /
+  stop model (`Lifecycle.startAck`) follows the code for r = 0 too and its theorems carry `r ≠ 0` explicitly.
+
+  Second half (start / stop requests, whole sessions): `Lifecycle.lean` — sessions on the high-level handler
+  (`afterA`) and on a bare `CommHandler` (`afterC`) in which every stream start/stop, divider and enable request is
+  answered as an `Ans` record says.
 -/
 import NxsModel.Gen.CfgShape
 import NxsModel.Config
 import NxsModel.Lemmas.Config
+import NxsModel.Lifecycle
+import NxsModel.Lemmas.Lifecycle
 namespace Nxs.C11
-open Nxs Nxs.Config
+open Nxs Nxs.Config Nxs.Lifecycle
 
 /-- a device the client can be connected to: 0..255 channels, 8-bit dividers -/
 def WFDev (d : Device) : Prop :=
@@ -54,6 +64,142 @@ theorem later_write_converges (d0 : Device) (flags : Nat) (ops : List Op) (hd : 
       r.2.1.div = r.1.divNew ∧ r.1.divNow = r.1.divNew ∧ r.1.copyDiv = r.1.divNew) :=
   c11_converges d0 flags ops hd ha
 
+/-! ### start / stop requests -/
+
+/-- a session on the high-level handler / on a bare `CommHandler`, the device answering as the history says -/
+def afterA (d0 : Device) (started : Bool) (flags : Nat) (desc : Desc) (hist : List (Call × Ans)) : World :=
+  (runA (World.fresh d0 started flags desc) hist).1
+def afterC (d0 : Device) (started : Bool) (flags : Nat) (desc : Desc) (hist : List (CommCall × Ans)) : World :=
+  (commRun (World.fresh d0 started flags desc) hist).1
+
+/-- `CommHandler.stream_start()` / `stream_stop()` return within one ACK timeout (1 s), whatever the device does
+    with the request and in whatever state the handler is; so do the high-level `stream_stop()` (one request) and
+    `stream_start()` (a configuration write, then one request: three ACK timeouts) -/
+theorem startStop_bounded (w : World) (a : Ans) :
+    (commStep w .streamStart a).1.time ≤ w.time + Gen.Comm.ackTimeoutStart ∧
+    (commStep w .streamStop a).1.time ≤ w.time + Gen.Comm.ackTimeoutStop ∧
+    (step w .streamStop a).1.time ≤ w.time + Gen.Comm.ackTimeoutStop ∧
+    (step w .streamStart a).1.time ≤ w.time + 20 + Gen.Comm.ackTimeoutStart := by
+  refine ⟨(commStartReq_time w true a.st).2, (commStartReq_time w false a.st).2, (streamStop_time w a).2, ?_⟩
+  rw [step_streamStart]
+  split
+  · show w.time ≤ w.time + 20 + Gen.Comm.ackTimeoutStart
+    omega
+  · have hw := doWrite_time w a
+    generalize doWrite w a = r at *
+    obtain ⟨w1, res⟩ := r
+    dsimp only at hw
+    have h10 : Gen.Comm.ackTimeoutStart = 10 := by decide
+    cases res with
+    | ok =>
+      have hs := commStartReq_time w1 true a.st
+      show (commStartReq w1 true a.st).1.time ≤ _
+      omega
+    | raised e => show w1.time ≤ _; omega
+    | ack s code => show w1.time ≤ _; omega
+
+/-- the value `CommHandler.stream_start()` / `stream_stop()` return is the acknowledgement state: on a connected
+    handler in front of a device with ACK support it is positive exactly for an acknowledged request; a rejection
+    returns its (non-zero) code, a lost request or lost ACK returns failure after the timeout; without a known
+    device or without ACK support the call reports success at once (there is nothing to wait for).  The device
+    starts / stops streaming exactly when it applied the request -/
+theorem startStop_returns_ack_state (w : World) (a : Ans) (start : Bool) :
+    let call : CommCall := if start then .streamStart else .streamStop
+    (commStep w call a).1.devStarted = (if applies a.st then start else w.devStarted) ∧
+    (w.hasDev = false ∨ Info.ackSupported w.flags = false → (commStep w call a).2 = .ack true 0) ∧
+    (w.hasDev = true → Info.ackSupported w.flags = true →
+      (a.st = .ack → (commStep w call a).2 = .ack true 0) ∧
+      (∀ code, a.st = .nack code → code ≠ 0 → (commStep w call a).2 = .ack false code) ∧
+      (a.st = .lost ∨ a.st = .appliedAckLost → (commStep w call a).2 = .ack false (-1))) := by
+  intro call
+  have hs := commStartReq_spec w start a.st
+  have e : commStep w call a = ((commStartReq w start a.st).1, .ack (commStartReq w start a.st).2.1 (commStartReq w start a.st).2.2) := by
+    cases start <;> rfl
+  rw [e]
+  refine ⟨hs.1, fun h => ?_, fun h1 h2 => ⟨fun h => ?_, fun code h hne => ?_, fun h => ?_⟩⟩
+  · show Res.ack (commStartReq w start a.st).2.1 (commStartReq w start a.st).2.2 = _
+    rw [hs.2.1 h]
+  · show Res.ack (commStartReq w start a.st).2.1 (commStartReq w start a.st).2.2 = _
+    rw [(hs.2.2 h1 h2).1 h]
+  · show Res.ack (commStartReq w start a.st).2.1 (commStartReq w start a.st).2.2 = _
+    rw [(hs.2.2 h1 h2).2.1 code h hne]
+  · show Res.ack (commStartReq w start a.st).2.1 (commStartReq w start a.st).2.2 = _
+    rw [(hs.2.2 h1 h2).2.2 h]
+
+/-- a start / stop request, whatever its outcome, never touches the channel state the client reports (acknowledged
+    vectors, requested vectors, the copy in the device description), the device's channel configuration or the
+    reported description: at the low level the world changes only in the frame log, the device's stream flag and the
+    clock; the high-level `stream_stop()` likewise; the high-level `stream_start()` changes the channel state
+    exactly as its `channels_write()` does -/
+theorem startStop_keeps_view (w : World) (a : Ans) :
+    ((commStep w .streamStart a).1.cli = w.cli ∧ (commStep w .streamStart a).1.dev = w.dev ∧
+      (commStep w .streamStart a).1.reported = w.reported) ∧
+    ((commStep w .streamStop a).1.cli = w.cli ∧ (commStep w .streamStop a).1.dev = w.dev ∧
+      (commStep w .streamStop a).1.reported = w.reported) ∧
+    ((step w .streamStop a).1.cli = w.cli ∧ (step w .streamStop a).1.dev = w.dev ∧
+      (step w .streamStop a).1.reported = w.reported) ∧
+    ((step w .streamStart a).1.cli = w.cli ∧ (step w .streamStart a).1.dev = w.dev ∨
+     (step w .streamStart a).1.cli = (doWrite w a).1.cli ∧ (step w .streamStart a).1.dev = (doWrite w a).1.dev) := by
+  refine ⟨⟨rfl, rfl, rfl⟩, ⟨rfl, rfl, rfl⟩, ?_, ?_⟩
+  · show (streamStop w a).cli = w.cli ∧ (streamStop w a).dev = w.dev ∧ (streamStop w a).reported = w.reported
+    cases hs : w.streamStarted with
+    | false => rw [streamStop_idle w a hs]; exact ⟨rfl, rfl, rfl⟩
+    | true => rw [streamStop_active w a hs]; exact ⟨rfl, rfl, rfl⟩
+  · rw [step_streamStart]
+    split
+    · exact Or.inl ⟨rfl, rfl⟩
+    · refine Or.inr ?_
+      generalize doWrite w a = r
+      obtain ⟨w1, res⟩ := r
+      cases res <;> exact ⟨rfl, rfl⟩
+
+/-! ### whole sessions: configuration, start / stop, disconnect / reconnect, any answers -/
+
+/-- every call of a session returns within a bounded time of waiting for the device -/
+theorem session_call_bounded (w : World) (c : Call) (cc : CommCall) (a : Ans) :
+    (step w c a).1.time ≤ w.time + 38 ∧ (commStep w cc a).1.time ≤ w.time + 20 :=
+  ⟨step_bounded w c a, commStep_bounded w cc a⟩
+
+/-- after ANY session on the high-level handler (writes, wrappers with writenow, stream start / stop, disconnects and
+    reconnects; every request acknowledged, rejected, lost or half-lost) a connected handler reports the last
+    state the device acknowledged: its copy of the description equals the acknowledged vectors, and whenever no
+    request is pending in doubt the device holds exactly that state -/
+theorem session_view_is_last_acked (d0 : Device) (started : Bool) (flags : Nat) (desc : Desc)
+    (hist : List (Call × Ans)) (hd : WFDev d0) (ha : Info.ackSupported flags = true)
+    (hcon : (afterA d0 started flags desc hist).connected = true) :
+    let w := afterA d0 started flags desc hist
+    ∃ c, w.cli = some c ∧ c.copyEn = c.enNow ∧ c.copyDiv = c.divNow ∧
+      (c.enResync = false → w.dev.en = c.enNow) ∧ (c.divResync = false → w.dev.div = c.divNow) :=
+  c11_life_view d0 started flags desc hist hd ha hcon
+
+/-- … and a later write that the device acknowledges does not raise and brings device and client to the requested state -/
+theorem session_later_write_converges (d0 : Device) (started : Bool) (flags : Nat) (desc : Desc)
+    (hist : List (Call × Ans)) (hd : WFDev d0) (ha : Info.ackSupported flags = true)
+    (hcon : (afterA d0 started flags desc hist).connected = true) :
+    let r := step (afterA d0 started flags desc hist) .channelsWrite
+    r.2 = .ok ∧
+    ∃ c, r.1.cli = some c ∧ r.1.dev.en = c.enNew ∧ c.enNow = c.enNew ∧ c.copyEn = c.enNew ∧
+      (Info.divSupported flags = true → r.1.dev.div = c.divNew ∧ c.divNow = c.divNew ∧ c.copyDiv = c.divNew) :=
+  c11_life_converges d0 started flags desc hist hd ha hcon
+
+/-- the same for sessions on a bare `CommHandler` -/
+theorem comm_session_view_is_last_acked (d0 : Device) (started : Bool) (flags : Nat) (desc : Desc)
+    (hist : List (CommCall × Ans)) (hd : WFDev d0) (ha : Info.ackSupported flags = true)
+    (hcon : (afterC d0 started flags desc hist).commStarted = true) :
+    let w := afterC d0 started flags desc hist
+    ∃ c, w.cli = some c ∧ c.copyEn = c.enNow ∧ c.copyDiv = c.divNow ∧
+      (c.enResync = false → w.dev.en = c.enNow) ∧ (c.divResync = false → w.dev.div = c.divNow) :=
+  c11_comm_view d0 started flags desc hist hd ha hcon
+
+theorem comm_session_later_write_converges (d0 : Device) (started : Bool) (flags : Nat) (desc : Desc)
+    (hist : List (CommCall × Ans)) (hd : WFDev d0) (ha : Info.ackSupported flags = true)
+    (hcon : (afterC d0 started flags desc hist).commStarted = true) :
+    let r := commStep (afterC d0 started flags desc hist) .channelsWrite
+    r.2 = .ok ∧
+    ∃ c, r.1.cli = some c ∧ r.1.dev.en = c.enNew ∧ c.enNow = c.enNew ∧ c.copyEn = c.enNew ∧
+      (Info.divSupported flags = true → r.1.dev.div = c.divNew ∧ c.divNow = c.divNew ∧ c.copyDiv = c.divNew) :=
+  c11_comm_converges d0 started flags desc hist hd ha hcon
+
 /-- the write path that `Config.lean` transcribes is present in the current source (regenerated facts):
     a failed ACK only sets the doubt flag and returns; a positive ACK clears it and advances the state;
     with the doubt flag set the full vector is sent; ACK timeouts as in `Gen.Comm` -/
@@ -76,5 +222,29 @@ example : (after ⟨[], []⟩ 3 [.enableAll, .write .lost (.nack 1), .write .ack
     (after ⟨[], []⟩ 3 [.enableAll, .write .lost (.nack 1), .write .ack .ack]).1.enResync = false ∧
     (after ⟨[], []⟩ 3 [.enableAll, .write .lost (.nack 1), .write .ack .ack]).1.divResync = false := by
   decide +kernel
+
+/-- non-vacuity of the start / stop theorems: a connected handler on an ACK device, a rejected stop: the call returns
+    the code, the device keeps streaming, nothing else changes, no time passes; a lost one costs the timeout -/
+example :
+    let w := afterC ⟨[true, false], [0, 0]⟩ false 3 (Desc.plain 2) [(.connect, {}), (.streamStart, {})]
+    w.hasDev = true ∧ Info.ackSupported w.flags = true ∧
+    (commStep w .streamStop ⟨.nack (-2147483648), .ack, .ack⟩).2 = .ack false (-2147483648) ∧
+    (commStep w .streamStop ⟨.nack (-2147483648), .ack, .ack⟩).1.devStarted = true ∧
+    (commStep w .streamStop ⟨.nack 65536, .ack, .ack⟩).1.time = w.time ∧
+    (commStep w .streamStop ⟨.lost, .ack, .ack⟩).2 = .ack false (-1) ∧
+    (commStep w .streamStop ⟨.lost, .ack, .ack⟩).1.time = w.time + 10 ∧
+    (commStep w .streamStop ⟨.appliedAckLost, .ack, .ack⟩).1.devStarted = false := by decide +kernel
+
+/-- non-vacuity of the session theorems: a connected state after a session with a rejected stop, a disconnect whose
+    disable-all the device lost, a reconnect and a half-lost single-channel enable; the acknowledged write converges -/
+example :
+    let hist : List (Call × Ans) :=
+      [(.connect, {}), (.chEnable [1] true, {}), (.streamStart, ⟨.nack 3, .ack, .ack⟩), (.streamStop, ⟨.lost, .ack, .ack⟩),
+       (.disconnect, ⟨.ack, .ack, .lost⟩), (.connect, {}), (.chEnable [-1] true, ⟨.ack, .ack, .appliedAckLost⟩),
+       (.chDisable [2] false, {}), (.chEnable [0] false, {})]
+    (afterA ⟨[false, false, false], [0, 0, 0]⟩ false 3 (Desc.plain 3) hist).connected = true ∧
+    (afterA ⟨[false, false, false], [0, 0, 0]⟩ false 3 (Desc.plain 3) hist).dev.en = [false, true, true] ∧
+    (step (afterA ⟨[false, false, false], [0, 0, 0]⟩ false 3 (Desc.plain 3) hist) .channelsWrite).1.dev.en
+      = [true, true, false] := by decide +kernel
 
 end Nxs.C11
